@@ -149,6 +149,22 @@ def SingleCert (b : Bytes) (va size : Nat) : Prop := certLength b va = size
 
 instance (b : Bytes) (va size : Nat) : Decidable (SingleCert b va size) := by unfold SingleCert; infer_instance
 
+/-! ### `Dir::entry`: the decoder chosen by `Type`, its value wrapped into the variant -/
+
+/-- the outcome of a decoder wrapped into an `Entry` variant: a value is wrapped, every other outcome (typed error,
+…) is handed on unchanged — `Ok(Entry::X(decoder(dir)?))` -/
+def wrapEntry {α : Type} (f : α → Entry) : Out α → Out Entry
+  | .ok a => .ok (f a)
+  | .err e => .err e
+  | .panic s => .panic s
+  | .ub s => .ub s
+  | .diverge => .diverge
+
+/-- the documented `Type` values the crate interprets (`image.rs`: IMAGE_DEBUG_TYPE_CODEVIEW / _MISC / _POGO) -/
+def typeCodeView : Nat := 2
+def typeMisc : Nat := 4
+def typePogo : Nat := 13
+
 /-! ### C01 for the debug decoders: every reference inside an interpreted entry is valid -/
 
 def cvRefsOK (img : Img) : CodeView → Prop
